@@ -549,9 +549,10 @@ func (lr *limitReader) Read(p []byte) (int, error) {
 	if lr.n < 0 {
 		lr.n = 0
 	}
-	if lr.n == 0 && err == io.EOF {
+	if lr.n == 0 && (err == io.EOF || err == io.ErrUnexpectedEOF) {
 		// The byte one past the limit arrived together with the end of the
-		// message: the message exceeds the limit, it did not end within it.
+		// message (an inflater reports the end of its input as either of
+		// these): the message exceeds the limit, it did not end within it.
 		err = fmt.Errorf("read limited at %v bytes", lr.limit.Load())
 		lr.c.writeError(StatusMessageTooBig, err)
 	}
